@@ -46,7 +46,7 @@ RULE = (
     "a seed corpus of valid inputs, -runs budget, -seed derived from VERIF_SEED) with this same oracle inside the target: input = the APDU octets; each "
     "execution counts as one evaluation, it is non-trivial by the same rule (recognised service at a non-minimal length or a decode that raised, measured in the target), distinct by input hash"
 )
-FUZZ_RUNS = 100_000  # executions per campaign (thorough tier)
+FUZZ_RUNS = 60_000  # executions per campaign (thorough tier)
 ASSUMPTIONS = [
     "a code is 'recognised' iff the reference table gives it a PDU definition (928 of 1024 codes; A_RouterStatus_* "
     "codes 0x3CD-0x3CF, undefined user/escape codes and 'response to basic restart' 0x3A0|r<<1 are not); each "
